@@ -1,6 +1,7 @@
 """Property -> units / harnesses / stated assumptions.  Units are /verif/units/<name>.vrs."""
 
 UNIT_NOTES = {
+    "codec": "L1 codecs against injected enc/dec: real impl bodies of u8, Option<T>, (T,U) (=> codec_ok lemmas); Vec<T> and BlockHistoryCacheData<V> encode/decode bodies verified as free functions with sequence / map level round-trip lemmas (Vec and BTreeMap have no extensional equality in vstd)",
     "scalars": "L5 scalar kernels: get_gas_limit, get_inscription_byte_len, get_evm_spec, use_rlp_hash_for_tx_hash, generate_block_hash (+ lemma: parked transactions keep at most their allowance)",
     "precompile": "C09 build_lock_script of the locked-pkscript helper: panic-freedom for every pkscript and lock count",
     "evmctx": "C19 engine/evm.rs get_evm over shim structs with revm's public field names",
@@ -49,7 +50,7 @@ PROPS = {
         ],
     },
     "C13": {
-        "units": ["history", "table", "blockdb"],
+        "units": ["history", "table", "blockdb", "codec"],
         "kani": [],
         "level_text": "Proof against an abstract Map model written from the statement: per-key history functional postconditions (set_spec / truncated / pruned) + lemmas (window preserved, rollback restores, <= 11 versions); table latest/set/unset/commit/retrieve_cache/clear_cache/reorg/get_range/all (range and full scans: complete, duplicate-free, in encoded-key order, values = what reads return; rollback: every key reads its value as of N and the window below N is preserved); block table get/set/commit/last_key/reorg with loop invariants and termination.",
         "level_note": COMMON_TRUST + "Every function of the three files is proved against its real body; the iteration primitives of RocksDB and HashMap/HashSet/sort are trusted wrappers (N9, N16, N28, N33).",
@@ -154,12 +155,12 @@ PROPS["C19"] = {
 }
 
 PROPS["C14"] = {
-    "units": [],
+    "units": ["codec"],
     "kani": ["u64_roundtrip", "u64_order", "u32_roundtrip", "u64ed_matches_u64", "option_u64_roundtrip", "tuple_u64_u32_roundtrip"],
     "kani_thorough": ["u128ed_roundtrip", "u128ed_order", "nidx_key_order"],
-    "level_text": "Complete CBMC proofs (all 2^64 / 2^128 values, unwinding assertions on) on the REAL codec files included by path: u64/u32 big-endian round trip with exact consumption inside a larger buffer, u64 order and injectivity of the encoding, U64ED encoding identical to u64 (block tables mix them), U128ED round trip and order, (block,index) composite key order, Option tag byte, tuple concatenation.",
-    "level_note": "Trusted: CBMC 6.11 / Kani 0.68 models of alloc and core, alloy-primitives 1.4.1 Uint::{as_limbs,from_limbs,from} as compiled. Harnesses are loop-free or bounded by the constant encoding width with unwinding assertions, hence complete, not bounded. NOT covered yet: Vec/String/struct codecs (variable length), BlockHistoryCacheData codec, U256/U512/Address/B256 (planned), the serde/JSON half of the statement.",
-    "assumptions": ["variable-length codecs (Vec, String, structs) not yet under proof", "serde/JSON round trip outside both tools"],
+    "level_text": "Verus (unbounded): real impl bodies of the u8 / Option<T> / (T,U) codecs satisfy `encode appends exactly enc(v)` and `decode returns dec(bytes, offset)`, with the round-trip law codec_ok (decode of an encoding anywhere inside a buffer gives the value back and consumes exactly its bytes: lossless and self-delimiting) proved generically; Vec<T> (u32 length prefix) and BlockHistoryCacheData<V> encode/decode bodies verified with round-trip lemmas over element sequences / version maps. Kani: complete CBMC proofs (all 2^64 / 2^128 values, unwinding assertions on) on the REAL codec files included by path: u64/u32 big-endian round trip with exact consumption inside a larger buffer, u64 order and injectivity of the encoding, U64ED encoding identical to u64 (block tables mix them), U128ED round trip and order, (block,index) composite key order, Option tag byte, tuple concatenation.",
+    "level_note": "Trusted: CBMC 6.11 / Kani 0.68 models of alloc and core, alloy-primitives 1.4.1 Uint::{as_limbs,from_limbs,from} as compiled. Harnesses are loop-free or bounded by the constant encoding width with unwinding assertions, hence complete, not bounded. In the Verus unit u32/u64 are assumed impls over be4/be8 (their laws are the Kani results). NOT covered: [T;N] / String / struct codecs (TxED, LogED, ...), U256/U512/Address/B256, RawBlock (alloy RLP), BytecodeED, the serde/JSON half of the statement.",
+    "assumptions": ["struct codecs and wide integer / byte-array types not under proof", "serde/JSON round trip outside both tools", "Vec / history round trips are at sequence / map level (no extensional equality for Vec, BTreeMap in vstd)"],
 }
 
 NOT_APPLICABLE = {
